@@ -18,11 +18,17 @@
 (*   AuthorityConstraints::contains (attenuation: an UNSTATED child        *)
 (*   ceiling / bound is never inside a STATED parent one).                 *)
 (*                                                                         *)
-(* One deliberate difference from the code, because the specification      *)
-(* states the PROPERTY (a ceiling is "the highest classification           *)
-(* readable", rows.rs): a classification ceiling limits every allow that   *)
-(* carries one, a policy allow statement included.  decision.rs applies    *)
-(* reaches_classification to Grants / Delegations only.                    *)
+(* Two places where the PROPERTY and decision.rs part; each is a switch so  *)
+(* that TLC can enumerate both readings (TRUE = the property, the oracle   *)
+(* the check uses; FALSE = as built, used only to attribute a mismatch):   *)
+(*   PolicyCeilingApplies  - a ceiling is "the highest classification      *)
+(*     readable" (rows.rs) for every allow that carries one, a policy      *)
+(*     allow statement included; decision.rs applies reaches_classification *)
+(*     to Grants / Delegations only.                                       *)
+(*   RedelegatorMustBeLive - "a delegation never confers more than its     *)
+(*     delegator currently holds": a re-delegation made by a principal     *)
+(*     that is suspended / revoked confers nothing; decision.rs checks the *)
+(*     liveness of the ROOT delegator only.                                *)
 (*                                                                         *)
 (* A configuration is a record                                             *)
 (*   pstat   : [principal -> "active" | "suspended" | "revoked"]           *)
@@ -39,6 +45,8 @@
 (* secret 4; -1 = unstated (ceiling: none; element: the Space default).    *)
 (***************************************************************************)
 EXTENDS Integers, Sequences, FiniteSets
+
+CONSTANTS PolicyCeilingApplies, RedelegatorMustBeLive
 
 Now == 10
 NoCeil == -1
@@ -123,7 +131,7 @@ ResolveDeleg(cfg, d, depth) ==
     \* the property: "a delegation never confers more than its delegator currently holds" - a
     \* re-delegation made by a principal that is no longer active confers nothing (decision.rs checks the
     \* liveness of the ROOT delegator only)
-    IF l.status # "active" \/ l.to # d.from \/ ~l.redeleg \/ ~Live(cfg, d.from) THEN <<>>
+    IF l.status # "active" \/ l.to # d.from \/ ~l.redeleg \/ (RedelegatorMustBeLive /\ ~Live(cfg, d.from)) THEN <<>>
     ELSE LET inh == ResolveDeleg(cfg, l, depth + 1) IN
       IF inh = <<>> THEN <<>>
       ELSE IF ~Inside(inh[1], d) THEN <<>>
@@ -195,7 +203,7 @@ Allows(cfg, p, perm, res) ==
                 /\ st.effect = "allow"
                 /\ StatementMatches(cfg, p, st, perm, res)
                 \* the property: a ceiling limits every allow that carries one
-                /\ (IsSpace(res) \/ Reaches(st.cons, res)))
+                /\ (IsSpace(res) \/ ~PolicyCeilingApplies \/ Reaches(st.cons, res)))
   IN own \o cs \o [i \in 1..Len(ps) |-> Cand(ps[i].acts, ps[i].scope, ps[i].cond, ps[i].cons, FALSE)]
 
 Restrictiveness(c) ==
